@@ -84,26 +84,38 @@ def find (cache : Path) (key : Bytes) : Prog (Res (Option Meta)) := do
 
 def defaultSri : Integrity := [{ algo := .sha1, digest := [100, 101, 97, 100, 98, 101, 101, 102] }]  -- sha1-deadbeef
 
+/-- The timestamp of a record: the caller's, or the clock. -/
+def getTime (o : WriteOpts) : Prog Nat :=
+  match o.time with
+  | some t => pure t
+  | none => do
+    match ← call .now with
+    | .nat t => pure t
+    | _ => pure 0
+
+def mkRec (key : Bytes) (o : WriteOpts) (time : Nat) : Rec :=
+  { key := key, integrity := o.sri.map Sri.print, time := time,
+    size := o.size.getD 0, metadata := o.metadata.getD .null, raw := o.raw }
+
+/-- Open the bucket for appending and write one framed record with a single `write`. -/
+def appendRec (bucket : Path) (r : Rec) : Prog (Res Unit) := do
+  match ← call (.openAppend bucket) with
+  | .err e => pure (.error (.io e))
+  | _ =>
+    match ← call (.appendWrite bucket ((codec cfg).frame r)) with
+    | .err e => pure (.error (.io e))
+    | _ => pure (.ok ())
+
 /-- `index::insert` / `insert_async`. -/
 def insert (cache : Path) (key : Bytes) (o : WriteOpts) : Prog (Res Integrity) := do
   let bucket := bucketPath cfg cache key
   match ← call (.mkdirP (FS.parent bucket)) with
   | .err e => pure (.error (.io e))
   | _ =>
-    let time ← match o.time with
-      | some t => pure t
-      | none => do
-        match ← call .now with
-        | .nat t => pure t
-        | _ => pure 0
-    let rec_ : Rec := { key := key, integrity := o.sri.map Sri.print, time := time,
-                        size := o.size.getD 0, metadata := o.metadata.getD .null, raw := o.raw }
-    match ← call (.openAppend bucket) with
-    | .err e => pure (.error (.io e))
-    | _ =>
-      match ← call (.appendWrite bucket ((codec cfg).frame rec_)) with
-      | .err e => pure (.error (.io e))
-      | _ => pure (.ok (o.sri.getD defaultSri))
+    let time ← getTime o
+    match ← appendRec cfg bucket (mkRec key o time) with
+    | .error e => pure (.error e)
+    | .ok () => pure (.ok (o.sri.getD defaultSri))
 
 /-- `index::delete` / `delete_async`: append a tombstone. -/
 def delete (cache : Path) (key : Bytes) : Prog (Res Unit) := do
